@@ -15,7 +15,11 @@ CONSTANTS Kinds,      \* e.g. {"lint-v2", "breaking-v1"}
 
 IsPrefixSeq(a, b) == Len(a) <= Len(b) /\ SubSeq(b, 1, Len(a)) = a
 \* files of the fixed images: three targets and one file that is only an import
-FilePath == [x |-> <<"dira", "x.proto">>, y |-> <<"dira", "sub", "y.proto">>, z |-> <<"dirb", "z.proto">>, imp |-> <<"imp", "i.proto">>]
+\* s1 / s2: two files of one package in different directories; a message moves from s2 (previous) to s1
+\* (current), so a breaking annotation on it has its location in s1 and its against-location in s2
+FilePath == [x |-> <<"dira", "x.proto">>, y |-> <<"dira", "sub", "y.proto">>, z |-> <<"dirb", "z.proto">>, imp |-> <<"imp", "i.proto">>,
+             s1 |-> <<"dira", "s1.proto">>, s2 |-> <<"dirb", "s2.proto">>]
+AgainstOf(f) == IF f = "s1" THEN {"s1", "s2"} ELSE {f}
 FileIds == DOMAIN FilePath
 IsImportOnly(f) == f = "imp"
 IgnorePathPool == {<<"dira">>, <<"dira", "sub", "y.proto">>, <<"dirb">>, <<"dir">>}
@@ -30,12 +34,13 @@ UsePool(k) == IF IsLint(k)
   THEN {"FIELD_LOWER_SNAKE_CASE", "MESSAGE_PASCAL_CASE", "COMMENT_FIELD", "MINIMAL", "BASIC", "STANDARD", "COMMENTS", "DEFAULT", "IMPORT_NO_WEAK", "NOT_A_RULE"}
   ELSE {"FIELD_NO_DELETE", "FIELD_SAME_TYPE", "ENUM_VALUE_NO_DELETE", "FILE", "WIRE", "WIRE_JSON", "FIELD_SAME_LABEL", "FILE_SAME_PHP_GENERIC_SERVICES", "NOT_A_RULE"}
 
+Known(k, id) == id \in RuleIds(k) \/ id \in CatIds(k)
 FixedSelections(k) == IF IsLint(k)
   THEN {<<{}, {}>>, <<{"STANDARD", "COMMENTS"}, {}>>, <<{"BASIC"}, {"FIELD_LOWER_SNAKE_CASE"}>>}
   ELSE {<<{}, {}>>, <<{"WIRE_JSON"}, {}>>, <<{"FILE"}, {"FIELD_SAME_TYPE"}>>}
 
-VARIABLES kind, use, except, ignore, ignoreOnlyKey, ignoreOnlyPath, allowComments, excludeImports
-vars == <<kind, use, except, ignore, ignoreOnlyKey, ignoreOnlyPath, allowComments, excludeImports>>
+VARIABLES kind, use, except, ignore, ignoreOnlyKey, ignoreOnlyPath, ignoreOnly2, allowComments, excludeImports
+vars == <<kind, use, except, ignore, ignoreOnlyKey, ignoreOnlyPath, ignoreOnly2, allowComments, excludeImports>>
 Small(S, n) == {T \in ({{}} \cup {{a} : a \in S} \cup {{a, b} : a \in S, b \in S}) : Cardinality(T) <= n}
 Init == /\ kind \in Kinds
         /\ use \in Small(UsePool(kind), MaxUse)
@@ -44,6 +49,9 @@ Init == /\ kind \in Kinds
         /\ ignoreOnlyKey \in {"none"} \cup (UsePool(kind) \ {"NOT_A_RULE"})
         /\ ignoreOnlyPath \in {<<"dira">>, <<"dirb">>}
         /\ (ignoreOnlyKey = "none" => ignoreOnlyPath = <<"dira">>)
+        \* a second ignore_only entry: a replacement of the deprecated first key, on the other directory
+        /\ ignoreOnly2 \in BOOLEAN
+        /\ (ignoreOnly2 => (ignoreOnlyKey = "FIELD_SAME_LABEL" /\ Known(kind, "FIELD_SAME_LABEL")))
         /\ allowComments \in BOOLEAN /\ (~IsLint(kind) => ~allowComments)
         /\ excludeImports \in BOOLEAN /\ (IsLint(kind) => ~excludeImports)
         \* the selection dimensions and the suppression dimensions are explored against fixed representatives
@@ -54,7 +62,6 @@ Next == UNCHANGED vars
 Spec == Init /\ [][Next]_vars
 
 \* ---- selection ----
-Known(k, id) == id \in RuleIds(k) \/ id \in CatIds(k)
 Expand(k, id) == IF id \in RuleIds(k) THEN {id} ELSE {r.id : r \in {x \in RulesOf(k) : id \in x.categories}}
 Undeprecate(k, ids) == UNION {IF Rule(k, i).deprecated THEN Rule(k, i).repl ELSE {i} : i \in ids}
 Defaults(k) == {r.id : r \in {x \in RulesOf(k) : x.default}}
@@ -65,16 +72,30 @@ Selected == Undeprecate(kind, UseRules) \ Undeprecate(kind, ExceptRules)
 \* a selection that ends up empty is an error of its own (nothing to run)
 EmptySelection == ~ConfigError /\ Selected = {}
 IgnoreOnlyRules == IF ignoreOnlyKey = "none" \/ ~Known(kind, ignoreOnlyKey) THEN {} ELSE Undeprecate(kind, Expand(kind, ignoreOnlyKey))
+OtherPath == IF ignoreOnlyPath = <<"dira">> THEN <<"dirb">> ELSE <<"dira">>
 
 \* ---- suppression of an annotation (rule r, file f, inside the commented element c) ----
 UnderAny(paths, f) == \E p \in paths : IsPrefixSeq(p, FilePath[f])
-Suppressed(r, f, c) ==
+\* a (breaking) annotation has a location in file f and an against-location in file a: it is suppressed
+\* when either of the two is ignored
+SuppressedAtW(ior, r, f) ==
+  \/ UnderAny(ignore, f)
+  \/ (r \in ior /\ IsPrefixSeq(ignoreOnlyPath, FilePath[f]))
+  \/ (ignoreOnly2 /\ r = "FIELD_SAME_CARDINALITY" /\ IsPrefixSeq(OtherPath, FilePath[f]))
+\* (ior = IgnoreOnlyRules, passed in so that TLC evaluates it once per state)
+SuppressedW(ior, r, f, c, a) ==
   \/ (IsLint(kind) /\ IsImportOnly(f))
   \/ (~IsLint(kind) /\ excludeImports /\ IsImportOnly(f))
-  \/ UnderAny(ignore, f)
-  \/ (r \in IgnoreOnlyRules /\ IsPrefixSeq(ignoreOnlyPath, FilePath[f]))
+  \/ SuppressedAtW(ior, r, f) \/ SuppressedAtW(ior, r, a)
   \/ (c /\ allowComments /\ r \in {"FIELD_LOWER_SNAKE_CASE", "COMMENT_FIELD"})
-Reported == {t \in [rule : Selected, file : FileIds, commented : BOOLEAN] : ~Suppressed(t.rule, t.file, t.commented)}
+Places == UNION {{[file |-> f, commented |-> c, against |-> a] : c \in BOOLEAN, a \in AgainstOf(f)} : f \in FileIds}
+Suppressed(r, f, c, a) == SuppressedW(IgnoreOnlyRules, r, f, c, a)
+AnnotationsOf(R) == UNION {{[rule |-> r, file |-> p.file, commented |-> p.commented, against |-> p.against] : r \in R} : p \in Places}
+Annotations == AnnotationsOf(Selected)
+\* only these rules can be suppressed on their own account
+RuleSpecific == Selected \cap (IgnoreOnlyRules \cup {"FIELD_SAME_CARDINALITY", "FIELD_LOWER_SNAKE_CASE", "COMMENT_FIELD"})
+Reported == LET ior == IgnoreOnlyRules  sel == Selected IN
+            {t \in AnnotationsOf(sel) : ~SuppressedW(ior, t.rule, t.file, t.commented, t.against)}
 
 \* ---- laws ----
 Nested(k, a, b) == (a \in CatIds(k) /\ b \in CatIds(k)) => Expand(k, a) \subseteq Expand(k, b)
@@ -86,17 +107,18 @@ ReplacementsExist == \A k \in Kinds : \A r \in RulesOf(k) : r.deprecated => (r.r
 ImportsNeverReportedByLint == IsLint(kind) => \A t \in Reported : ~IsImportOnly(t.file)
 \* "dir" is not a path prefix of "dira": ignoring it suppresses nothing
 LookAlikeIgnoresNothing == (ignore = {<<"dir">>} /\ ignoreOnlyKey = "none" /\ ~allowComments /\ ~excludeImports) =>
-   \A r \in Selected : \A f \in FileIds : (~(IsLint(kind) /\ IsImportOnly(f))) => [rule |-> r, file |-> f, commented |-> FALSE] \in Reported
+   \A r \in Selected : \A f \in FileIds : (~(IsLint(kind) /\ IsImportOnly(f))) => [rule |-> r, file |-> f, commented |-> FALSE, against |-> f] \in Reported
 
 EmitCase == Emit => PrintT(<<"CASE", ToJson([kind |-> kind, use |-> use, except |-> except,
    ignore |-> {p : p \in ignore}, ignoreOnlyKey |-> ignoreOnlyKey, ignoreOnlyPath |-> ignoreOnlyPath,
    allowComments |-> allowComments, excludeImports |-> excludeImports,
    error |-> (ConfigError \/ EmptySelection), selected |-> IF ConfigError THEN {} ELSE Selected,
    \* Reported = Selected x files x {commented} minus supAll (whatever the rule) minus supRule (rule-specific)
-   supAll |-> IF ConfigError \/ EmptySelection THEN {} ELSE
-              {[file |-> f, commented |-> c] : f \in FileIds, c \in BOOLEAN} \cap
-              {t \in [file : FileIds, commented : BOOLEAN] : \A r \in Selected : Suppressed(r, t.file, t.commented)},
-   supRule |-> IF ConfigError \/ EmptySelection THEN {} ELSE
-              {t \in [rule : Selected, file : FileIds, commented : BOOLEAN] :
-                   Suppressed(t.rule, t.file, t.commented) /\ \E r2 \in Selected : ~Suppressed(r2, t.file, t.commented)}])>>)
+   ignoreOnly2 |-> ignoreOnly2, otherPath |-> OtherPath,
+   supAll |-> IF ConfigError \/ EmptySelection THEN {} ELSE LET ior == IgnoreOnlyRules  sel == Selected IN
+              {p \in Places : \A r \in sel : SuppressedW(ior, r, p.file, p.commented, p.against)},
+   supRule |-> IF ConfigError \/ EmptySelection THEN {} ELSE LET ior == IgnoreOnlyRules  sel == Selected IN
+              {t \in AnnotationsOf(sel \cap (ior \cup {"FIELD_SAME_CARDINALITY", "FIELD_LOWER_SNAKE_CASE", "COMMENT_FIELD"})) :
+                    SuppressedW(ior, t.rule, t.file, t.commented, t.against)
+                    /\ \E r2 \in sel : ~SuppressedW(ior, r2, t.file, t.commented, t.against)}])>>)
 =============================================================================
